@@ -294,6 +294,21 @@ func init() {
 	}})
 }
 
+// content: the bytes of a message of length L. kind 0: a fixed function of the position; kind 1 / 2:
+// the same with the last one / three bytes equal to the pad value that will FOLLOW them
+// (bs - L mod bs), so that data and padding cannot be told apart by value.
+func content(seed, L, bs, kind int) []byte {
+	data := pu.Msg(seed, L)
+	padv := byte(bs - L%bs)
+	n := []int{0, 1, 3}[kind]
+	for i := 0; i < n && i < L; i++ {
+		data[L-1-i] = padv
+	}
+	return data
+}
+
+var contentNames = []string{"position-dependent", "last byte equals the pad value", "last three bytes equal the pad value"}
+
 func writerUnit(bs, lo, hi, maxDev int) harness.Unit {
 	return harness.Unit{Name: fmt.Sprintf("writer/bs%d/L=%d..%d/dev<=%d", bs, lo, hi, maxDev), Run: func(c *harness.Ctx) {
 		menu := chunkMenu(bs)
@@ -304,7 +319,8 @@ func writerUnit(bs, lo, hi, maxDev int) harness.Unit {
 			if f.mut == nil {
 				return
 			}
-			data := pu.Msg(L+1, L)
+			ck := x.Pick(3, "content")
+			data := content(L+1, L, bs, ck)
 			stream := f.mut(pad(data, bs), bs)
 			if stream == nil {
 				return
@@ -356,7 +372,7 @@ func writerUnit(bs, lo, hi, maxDev int) harness.Unit {
 				c.Sample(fmt.Sprintf("bs=%d L=%d final=%s chunks=%v", bs, L, f.name, chunks))
 			}
 			if key != "" {
-				c.Violate(fmt.Sprintf("%s:bs%d", key, bs), fmt.Sprintf("bs=%d L=%d final=%s chunks=%v: %s", bs, L, f.name, chunks, desc), x.Choices, nil)
+				c.Violate(fmt.Sprintf("%s:bs%d", key, bs), fmt.Sprintf("bs=%d L=%d content=%s final=%s chunks=%v: %s", bs, L, contentNames[ck], f.name, chunks, desc), x.Choices, nil)
 			}
 		}, nil)
 	}}
@@ -377,7 +393,8 @@ func cryptUnit(lo, hi, maxDev int) harness.Unit {
 		iv := pu.Msg(22, 16)
 		c.Explore(maxDev, func(x *xp.X) {
 			L := lo + x.Pick(hi-lo+1, "L")
-			data := pu.Msg(L+2, L)
+			ck := x.Pick(3, "content")
+			data := content(L+2, L, 16, ck)
 			blk, _ := sm4.NewCipher(key)
 			want := make([]byte, len(pad(data, 16)))
 			cipher.NewCBCEncrypter(refsm4.Must(key), iv).CryptBlocks(want, pad(data, 16))
@@ -431,7 +448,7 @@ func cryptUnit(lo, hi, maxDev int) harness.Unit {
 				c.Sample(fmt.Sprintf("L=%d plaintext-source answers=%v ciphertext-source answers=%v", L, s1.answers, a2))
 			}
 			if k != "" {
-				c.Violate(k, fmt.Sprintf("L=%d plaintext-source answers %v, ciphertext-source answers %v: %s", L, s1.answers, a2, desc), x.Choices, nil)
+				c.Violate(k, fmt.Sprintf("L=%d content=%s plaintext-source answers %v, ciphertext-source answers %v: %s", L, contentNames[ck], s1.answers, a2, desc), x.Choices, nil)
 			}
 		}, nil)
 	}}
